@@ -103,4 +103,41 @@ def save (c : Cfg) (fs : Fs) (modeO levelOk dirHasExt zip : Bool) (nTmp nWrites 
     let r := run c fs (steps zip nTmp nWrites (fsGet fs c.target).isSome) fault
     .ran r.1 r.2
 
+/-! ### histories of calls -/
+
+/-- one `save(...)` call of a history: its configuration, options and (possibly) the
+position at which an exception strikes -/
+structure Call where
+  cfg : Cfg
+  modeO : Bool
+  levelOk : Bool
+  dirHasExt : Bool
+  zip : Bool
+  nTmp : Nat
+  nWrites : Nat
+  fault : Option Nat
+
+def Call.outcome (fs : Fs) (k : Call) : Outcome :=
+  save k.cfg fs k.modeO k.levelOk k.dirHasExt k.zip k.nTmp k.nWrites k.fault
+
+/-- the filesystem after the call -/
+def Call.apply (fs : Fs) (k : Call) : Fs :=
+  match k.outcome fs with
+  | .raisedBeforeAnyEffect _ => fs
+  | .ran fs' _ => fs'
+
+/-- the call returned normally -/
+def Call.succeeded (fs : Fs) (k : Call) : Bool :=
+  match k.outcome fs with
+  | .raisedBeforeAnyEffect _ => false
+  | .ran _ raised => !raised
+
+def runCalls (fs : Fs) (ks : List Call) : Fs := ks.foldl Call.apply fs
+
+/-- the ids of the calls of a history that returned normally -/
+def succeededIds : Fs → List Call → List Nat
+  | _, [] => []
+  | fs, k :: rest => (if k.succeeded fs then [k.cfg.id] else []) ++ succeededIds (k.apply fs) rest
+
+
 end QuantemModel.SaveFs
